@@ -79,8 +79,8 @@ def run_case(case):
         n = 0
         lines = text.split("\n")
         for o in oRules.rules:
-            if o.deprecated:
-                continue
+            if o.deprecated or not isinstance(o.phase, int) or not 1 <= o.phase <= 7:
+                continue  # rule_list only ever runs phases 1..7
             n += 1
             try:
                 o.analyze(oFile)
@@ -192,7 +192,8 @@ def _broken_cli(case):
             names = [e.get("file_path") for e in j["files"] if e]
         except Exception:
             names = []
-        if "b_next.vhd" not in names or "File:  b_next.vhd" not in so:
+        next_processed = "b_next.vhd" in names and ("File:  b_next.vhd" in so or "Error while processing b_next.vhd" in se)
+        if not next_processed:
             V.append(("broken-cli:next-file-not-processed", {"json_files": names, "rejected": rejected}))
         return {"kind": "broken_cli", "violations": V, "outcome": "rejected" if rejected else "accepted"}
     finally:
